@@ -254,8 +254,11 @@ func (s *state) walk(node ast.Node) {
 	}
 }
 
+// lineCommentSafe replaces the characters that would end a JavaScript line comment.
+var lineCommentSafe = strings.NewReplacer("\n", " ", "\r", " ", "\u2028", " ", "\u2029", " ")
+
 func (s *state) visitSoyFile(node *ast.SoyFileNode) {
-	s.jsln("// This file was automatically generated from ", node.Name, ".")
+	s.jsln("// This file was automatically generated from ", lineCommentSafe.Replace(node.Name), ".")
 	s.jsln("// Please don't edit this file by hand.")
 	s.jsln("")
 	s.visitChildren(node)
